@@ -149,6 +149,13 @@ def instances(formulas, opts=None):
         for a, b in itertools.combinations(rs, 2):
             out.append(z3.Implies(a.arg(0) <= b.arg(0), a <= b))
             out.append(z3.Implies(a.arg(0) >= b.arg(0), a >= b))
+    # facts about input arrays (registered by contracts): instantiated for every application present
+    for fname, fact in (opts.get("array_facts") or []):
+        for e in apps.get(fname, {}).values():
+            try:
+                out.append(fact(*e.children()))
+            except Exception:  # pragma: no cover
+                pass
     # Σ instances
     sig_apps = []
     for name, d in apps.items():
@@ -176,7 +183,7 @@ def instances(formulas, opts=None):
             if not (z3.simplify(lo1 - lo2).eq(z3.IntVal(0)) and z3.simplify(hi1 - hi2).eq(z3.IntVal(0))):
                 if not opts.get("ext_all", False):
                     continue
-            x = z3.Int(fresh_name("ext"))
+            x = z3.Int(f"ext!{e1.get_id()}!{e2.get_id()}")
             a1 = [e1.arg(i) for i in range(2, e1.num_args())]
             a2 = [e2.arg(i) for i in range(2, e2.num_args())]
             b1, b2 = sd1.body_at(x, a1), sd2.body_at(x, a2)
